@@ -18,7 +18,7 @@ theorem parseBody_print_empty (rest : List Tok) :
 /-! ### route paths -/
 
 def wfSeg (s : Seg) : Prop :=
-  (s.hk = .IDENT ∨ s.hk = .INT) ∧ s.head ≠ "returns" ∧ ∀ x ∈ s.tail, x.1 = false → x.2 ≠ "returns"
+  (s.hk = .IDENT ∨ s.hk = .INT) ∧ (s.colon = false → s.head ≠ "returns") ∧ ∀ x ∈ s.tail, x.1 = false → x.2 ≠ "returns"
 
 def szSegs : List Seg → Nat
   | [] => 1
@@ -93,16 +93,17 @@ theorem parseSegs_print (ss : List Seg) : ∀ (f : Nat) (trail : Bool) (c : Tok)
     have h1 := stopsPath_quo
     have h2 := stopsPath_colon
     simp only [tk] at h1 h2
-    have hhead : stopsPath { k := s.hk, s := s.head } = false := by
-      rcases hk with h | h
-      · rw [h]; have := stopsPath_ident s.head hh; simpa [tk] using this
-      · rw [h]; have := stopsPath_int s.head hh; simpa [tk] using this
     have hkc : s.hk ≠ .COLON := by rcases hk with h | h <;> simp [h]
     cases hcol : s.colon with
     | true =>
       simp [parseSegs, printSegs, hcol, tk, h1, h2, List.append_assoc, hq, hk, htail, hqk, ih']
       cases s; simp_all
     | false =>
+      have hh := hh hcol
+      have hhead : stopsPath { k := s.hk, s := s.head } = false := by
+        rcases hk with h | h
+        · rw [h]; have := stopsPath_ident s.head hh; simpa [tk] using this
+        · rw [h]; have := stopsPath_int s.head hh; simpa [tk] using this
       simp [parseSegs, printSegs, hcol, tk, h1, hhead, hkc, List.append_assoc, hq, hk, htail, hqk, ih']
       cases s; simp_all
 
